@@ -3776,8 +3776,8 @@ impl KotoVm {
     }
 
     fn new_frame_base(&self) -> Result<u8> {
-        u8::try_from(self.registers.len() - self.register_base)
-            .map_err(|_| "Overflow of the current frame's register stack".into())
+        // The arguments of the call follow the frame base, starting from frame_base + 1
+        self.next_register(1)
     }
 
     fn register_index(&self, register: u8) -> usize {
